@@ -94,28 +94,32 @@ def mmode_configs(tier, prop):
     C11-wishbone-crossbar-has-no-timeout) and is swept for C06 only."""
     th = tier == "thorough"
     L = []
+    S = dict(map="small", rw=0, errs=0)
     if prop == "C06":
-        L.append(_entry(kind="shared", n=3, m=3, map="small", rw=0, errs=0))
-        L.append(_entry(kind="shared", n=3, m=3, map="small", rw=0, errs=0, register=True, minlat=1))
-        L.append(_entry(kind="crossbar", n=3, m=3, map="small", rw=0, errs=0, hole=False))
-        L.append(_entry(kind="shared", n=4, m=4, map="small", rw=0, errs=0, hole=False))
-        L.append(_entry(kind="shared", n=4, m=3, map="small", rw=0, errs=0, hole=False, register=True, minlat=1))
-        L.append(_entry(kind="crossbar", n=3, m=4, map="small", rw=0, errs=0, hole=False, register=True, minlat=1))
+        L.append(_entry(kind="shared", n=3, m=3, **S))
+        L.append(_entry(kind="shared", n=3, m=3, register=True, minlat=1, **S))
+        L.append(_entry(kind="shared", n=4, m=2, hole=False, **S))
+        L.append(_entry(kind="crossbar", n=3, m=3, hole=False, register=True, minlat=1, **S))
         if th:
-            L.append(_entry(kind="shared", n=4, m=4, map="small", rw=0, errs=0))
-            L.append(_entry(kind="shared", n=4, m=4, map="small", rw=0, errs=0, register=True, minlat=1))
+            L.append(_entry(kind="shared", n=4, m=4, hole=False, **S))
+            L.append(_entry(kind="shared", n=4, m=4, hole=False, register=True, minlat=1, **S))
+            L.append(_entry(kind="shared", n=4, m=3, register=True, minlat=1, **S))
             L.append(_entry(kind="shared", n=3, m=3, map="small", waitstates=1))
-            L.append(_entry(kind="crossbar", n=4, m=4, map="small", rw=0, errs=0, hole=False))
-            L.append(_entry(kind="crossbar", n=4, m=3, map="small", rw=0, errs=0, hole=False, register=True, minlat=1))
-            L.append(_entry(kind="crossbar", n=3, m=3, map="small", rw=0, errs=0))
+            L.append(_entry(kind="crossbar", n=3, m=3, **S))
+            L.append(_entry(kind="crossbar", n=4, m=2, hole=False, **S))
+            L.append(_entry(kind="crossbar", n=3, m=4, hole=False, **S))
+            L.append(_entry(kind="crossbar", n=4, m=3, hole=False, register=True, minlat=1, **S))
     if prop == "C11":
-        L.append(_entry(kind="shared", n=3, m=3, map="small", timeout=5, faulty=1, rw=0, errs=0, slack=2))
-        L.append(_entry(kind="shared", n=2, m=2, map="small", timeout=8, faulty=1, slack=2))
-        L.append(_entry(kind="shared", n=3, m=3, map="small", timeout=8, faulty=1, rw=0, errs=0, slack=2, register=True, minlat=1))
+        T = dict(faulty=1, slack=2)
+        L.append(_entry(kind="shared", n=2, m=2, map="small", timeout=8, **T))
+        L.append(_entry(kind="shared", n=3, m=2, timeout=6, hole=False, **S, **T))
+        L.append(_entry(kind="shared", n=2, m=3, timeout=8, register=True, minlat=1, **S, **T))
         if th:
-            L.append(_entry(kind="shared", n=4, m=4, map="small", timeout=8, faulty=1, rw=0, errs=0, slack=2, hole=False))
-            L.append(_entry(kind="shared", n=4, m=3, map="small", timeout=6, faulty=1, rw=0, errs=0, slack=2))
-            L.append(_entry(kind="shared", n=3, m=4, map="small", timeout=7, faulty=1, rw=0, slack=2, register=True, minlat=1))
+            L.append(_entry(kind="shared", n=3, m=3, timeout=8, **S, **T))
+            L.append(_entry(kind="shared", n=3, m=3, timeout=8, register=True, minlat=1, **S, **T))
+            L.append(_entry(kind="shared", n=4, m=3, timeout=6, hole=False, **S, **T))
+            L.append(_entry(kind="shared", n=4, m=4, timeout=8, hole=False, **S, **T))
+            L.append(_entry(kind="shared", n=3, m=4, map="small", timeout=7, rw=0, **T))
     return L
 
 
@@ -123,17 +127,19 @@ def mmode_configs(tier, prop):
 def run_configs(tier, prop):
     """instances larger than any G-mode graph, run cycle by cycle on the real netlist under a random environment that
     obeys WbIcContract's Env; every cycle is judged by the model (conformance) and by the L1 trace module"""
+    # (alphabets sized so that WbIcTrace's EnvLegal, which builds Inputs(c) in every step, stays below ~40 k input vectors)
     L = []
     if prop == "C06":
-        L.append(_entry(kind="shared", n=4, m=4, map="small", waitstates=1))
-        L.append(_entry(kind="shared", n=4, m=4, map="small", register=True, minlat=1, waitstates=1))
-        L.append(_entry(kind="crossbar", n=4, m=4, map="small", waitstates=1))
-        L.append(_entry(kind="crossbar", n=4, m=4, map="small", register=True, minlat=1, waitstates=1))
-        L.append(_entry(kind="shared", n=3, m=4, map="small", decoder="range", waitstates=1))
+        L.append(_entry(kind="shared", n=4, m=4, map="small", rw=0, errs=0))
+        L.append(_entry(kind="shared", n=4, m=4, map="small", rw=0, errs=0, hole=False, register=True, minlat=1))
+        L.append(_entry(kind="crossbar", n=4, m=4, map="small", rw=0, errs=0))
+        L.append(_entry(kind="crossbar", n=4, m=4, map="small", rw=0, errs=0, hole=False, register=True, minlat=1))
+        L.append(_entry(kind="shared", n=3, m=4, map="small", decoder="range", rw=0, errs=0, waitstates=1))
+        L.append(_entry(kind="crossbar", n=2, m=4, map="small", waitstates=1))
     if prop == "C11":
-        L.append(_entry(kind="shared", n=4, m=4, map="small", timeout=8, faulty=1, slack=2, waitstates=1))
-        L.append(_entry(kind="shared", n=4, m=3, map="small", timeout=5, faulty=1, slack=2, register=True, minlat=1))
-        L.append(_entry(kind="shared", n=2, m=4, map="small", timeout=1, faulty=1, slack=2))
+        L.append(_entry(kind="shared", n=4, m=4, map="small", timeout=8, faulty=1, slack=2, rw=0, errs=0))
+        L.append(_entry(kind="shared", n=4, m=3, map="small", timeout=5, faulty=1, slack=2, rw=0, register=True, minlat=1))
+        L.append(_entry(kind="shared", n=2, m=4, map="small", timeout=1, faulty=1, slack=2, waitstates=1))
     return L
 
 
